@@ -86,7 +86,7 @@ def main():
     if sneg.violated != "ServerTracksEditor":
         raise vlib.InfraError("LspSession_neg (DidOpen keeps the preloaded copy) was not rejected by ServerTracksEditor")
     snum = 1500 if thorough else 300
-    ssim = vlib.tlc("LspSession", "LspSession_sim.cfg", workers=1, simulate="num=%d" % snum, depth=20,
+    ssim = vlib.tlc("MCLspSession", "LspSession_sim.cfg", workers=1, simulate="num=%d" % snum, depth=20,
                     tlc_seed=ck.seed, timeout=600)
     if ssim.violated:
         raise vlib.InfraError("LspSession simulation violated %s in the model" % ssim.violated)
@@ -107,6 +107,10 @@ def main():
     ck.set("session_behaviours", s3["behaviours"])
     ck.set("session_steps", s3["steps"])
     ck.set("session_negative_config", "DidOpen that keeps the preloaded copy violates ServerTracksEditor")
+    if thorough:
+        ck.set("session_apalache_obligations", vlib.apalache_inductive(
+            "LspSession", "LspSession_apalache.cfg", "IndInit", "IndInv", "ServerTracksEditor",
+            ('OpenRule = "replace"', 'OpenRule = "keepPreloaded"')))
 
     ck.set("traces_validated_against_impl", len(edges) + s2["behaviours"] + walks + s3["behaviours"])
     ck.set("exhaustive", True)
